@@ -580,7 +580,8 @@ pub fn apply_coercion(
 
         // Find the style of just the pattern part in the container
         if let Some(pos) = container_lower.find(&old_pattern_lower) {
-            let pattern_part = &container_without_prefix[pos..pos + old_pattern.len()];
+            // `pos` was found in the lower-cased copy; it need not be a valid offset of the original
+            let pattern_part = container_without_prefix.get(pos..pos + old_pattern.len())?;
             let pattern_style = detect_style(pattern_part);
 
             // Don't coerce if the pattern part has mixed/unknown style
@@ -652,15 +653,31 @@ fn replace_case_insensitive(text: &str, pattern: &str, replacement: &str) -> Str
     let text_lower = text.to_lowercase();
     let pattern_lower = pattern.to_lowercase();
 
+    // Offsets found in the lower-cased copy are applied to the original text below. That is only
+    // valid while lower-casing keeps byte offsets (true for ASCII, not for e.g. U+0130), and an
+    // empty pattern would never advance. In those cases the text is returned unchanged.
+    if pattern_lower.is_empty()
+        || text_lower.len() != text.len()
+        || pattern_lower.len() != pattern.len()
+    {
+        return text.to_string();
+    }
+
     let mut result = String::new();
     let mut last_end = 0;
 
-    while let Some(start) = text_lower[last_end..].find(&pattern_lower) {
+    while let Some(start) = text_lower
+        .get(last_end..)
+        .and_then(|rest| rest.find(&pattern_lower))
+    {
         let absolute_start = last_end + start;
         let absolute_end = absolute_start + pattern.len();
 
         // Add the part before the match
-        result.push_str(&text[last_end..absolute_start]);
+        let Some(before) = text.get(last_end..absolute_start) else {
+            return text.to_string();
+        };
+        result.push_str(before);
 
         // Add the replacement
         result.push_str(replacement);
@@ -669,7 +686,10 @@ fn replace_case_insensitive(text: &str, pattern: &str, replacement: &str) -> Str
     }
 
     // Add the remaining part
-    result.push_str(&text[last_end..]);
+    let Some(rest) = text.get(last_end..) else {
+        return text.to_string();
+    };
+    result.push_str(rest);
 
     result
 }
